@@ -177,6 +177,20 @@ class FakeODE:
         raise Skip("stepping the ODE integrator is outside the symbolic model")
 
 
+class _Ascending(np.ndarray):
+    """eigenvalue vector returned by the eigh contract: ascending, so sorting it is the identity"""
+
+    def argsort(self, *a, **k):
+        return np.arange(self.shape[0])
+
+
+def _eigh_ascending(A, *a, **k):
+    w, V = np.linalg.eigh(A, *a, **k)
+    if _is_obj(w):
+        w = w.view(_Ascending)
+    return w, V
+
+
 class SymEnv:
     """object dtype ~ complex128 for quimb's plumbing, explt / expm_multiply / complex_ode models"""
 
@@ -206,7 +220,7 @@ class SymEnv:
         ex = _explt_obj(qc.explt)
         p.set(qc, "explt", ex)
         p.set(qe, "explt", ex)
-        p.set(qnl._NUMPY_EIG_FUNCS, (True, True), np.linalg.eigh, item=True)
+        p.set(qnl._NUMPY_EIG_FUNCS, (True, True), _eigh_ascending, item=True)
         p.set(qnl._NUMPY_EIG_FUNCS, (False, True), np.linalg.eigvalsh, item=True)
         self.expm = ExpmRecorder(qbl._EXPM_MULTIPLY_METHODS["SCIPY"])
         p.set(qbl._EXPM_MULTIPLY_METHODS, "SCIPY", self.expm, item=True)
@@ -505,15 +519,7 @@ def _num_ddt(f, t, h=1e-4):
     return (-f(t + 2 * h) + 8 * f(t + h) - 8 * f(t - h) + f(t - 2 * h)) / (12 * h)
 
 
-@obligation(PROP, params=[{"n": 3, "kind": "ket"}, {"n": 3, "kind": "dop"},
-                          {"n": 4, "kind": "ket", "_tiers": ("thorough",)}],
-            rounds=1, rounds2=2, exc_is_violation=True, timeout_s=600)
-@symenv
-def solve_dense_ode(mk, n, kind):
-    """method='solve' with a dense Hamiltonian: the reported state p(t) satisfies dp/dt = -i H p
-    (resp. -i [H, p]) and p(t0) = p0 modulo the contract of eigh -> it is exp(-iH(t-t0)) p0 [...]"""
-    mk.encodes(qe.Evolution.__init__, qe.Evolution._setup_solved_ham, qe.Evolution._update_to_solved_ket,
-               qe.Evolution._update_to_solved_dop, qbl.eigensystem, qnl.eig_numpy)
+def _solve_dense(mk, n, kind, goal):
     H = mk.herm("H", n)
     p0 = _state(mk, n, kind)
     t0, t1 = mk.scalar("t0"), mk.scalar("t1")
@@ -524,12 +530,16 @@ def solve_dense_ode(mk, n, kind):
 
     if mk.sym:
         evo = qe.Evolution(p0, _q(H), t0=t0, method="solve")
-        evo.update_to(t1)
-        pt = np.asarray(evo.pt)
-        mk.eq("d/dt p(t) == -i H p(t)   [-i [H, p(t)]]", _ddt(pt, t1), rhs(pt))
-        mk.eq("evo.t", evo.t, t1)
-        evo.update_to(t0)
-        mk.eq("p(t0) == p0", evo.pt, p0)
+        if goal == "ode":
+            evo.update_to(t1)
+            pt = np.asarray(evo.pt)
+            mk.eq("d/dt p(t) == -i H p(t)   [-i [H, p(t)]]", _ddt(pt, t1), rhs(pt))
+            mk.eq("evo.t", evo.t, t1)
+        else:
+            evo.update_to(t1)
+            evo.update_to(t0)
+            mk.eq("p(t0) == p0", evo.pt, p0)
+            mk.eq("evo.t", evo.t, t0)
     else:
         def at(t):
             evo = qe.Evolution(p0, qu.qu(H), t0=t0, method="solve")
@@ -537,22 +547,47 @@ def solve_dense_ode(mk, n, kind):
             return np.asarray(evo.pt)
 
         pt = at(t1)
-        mk.eq("d/dt p(t) == -i H p(t)   [-i [H, p(t)]]", _num_ddt(at, t1), rhs(pt), tol=1e-6)
-        mk.eq("p(t0) == p0", at(t0), p0)
+        if goal == "ode":
+            mk.eq("d/dt p(t) == -i H p(t)   [-i [H, p(t)]]", _num_ddt(at, t1), rhs(pt), tol=1e-6)
+        else:
+            mk.eq("p(t0) == p0", at(t0), p0)
         U = sla.expm(-1j * H * (t1 - t0))
         mk.eq("p(t1) == expm(-iH(t1-t0)) p0 [...]", pt, U @ p0 @ U.conj().T if isdop else U @ p0)
-        Hs = sp.csr_matrix(H)
-        evo = qe.Evolution(p0, Hs, t0=t0, method="solve")
+        evo = qe.Evolution(p0, sp.csr_matrix(H), t0=t0, method="solve")
         evo.update_to(t1)
         mk.eq("sparse hamiltonian, method='solve'", evo.pt, pt)
 
 
-@obligation(PROP, params=[{"kind": "ket"}, {"kind": "dop"}], exc_is_violation=True)
+_DENSE = [{"n": 3, "kind": "ket"}, {"n": 3, "kind": "dop"}, {"n": 4, "kind": "ket", "_tiers": ("thorough",)}]
+
+
+@obligation(PROP, params=_DENSE, rounds=1, exc_is_violation=True, timeout_s=600)
+@symenv
+def solve_dense_ode(mk, n, kind):
+    """method='solve' with a dense Hamiltonian: the reported state p(t), differentiated formally in t,
+    satisfies dp/dt = -i H p (resp. -i [H, p]) modulo the contract of eigh"""
+    mk.encodes(qe.Evolution.__init__, qe.Evolution._setup_solved_ham, qe.Evolution._update_to_solved_ket,
+               qe.Evolution._update_to_solved_dop, qbl.eigensystem, qnl.eig_numpy)
+    _solve_dense(mk, n, kind, "ode")
+
+
+@obligation(PROP, params=_DENSE, rounds=2, exc_is_violation=True, timeout_s=600)
+@symenv
+def solve_dense_initial(mk, n, kind):
+    """... and p(t0) = p0 (after going away and coming back): with the ODE goal, p(t) is the unique
+    solution exp(-iH(t-t0)) p0 [exp(+iH(t-t0))]"""
+    mk.encodes(qe.Evolution.__init__, qe.Evolution._setup_solved_ham, qe.Evolution._update_to_solved_ket,
+               qe.Evolution._update_to_solved_dop)
+    _solve_dense(mk, n, kind, "init")
+
+
+@obligation(PROP, params=[{"kind": k} for k in _KINDS], rounds=2, exc_is_violation=True)
 @symenv
 def solve_dense_dim2(mk, kind):
-    """the same for a single qubit (d = 2): a 2 x 2 Hamiltonian is a supported input of method='solve'"""
+    """the same two goals for a single qubit (d = 2): a 2 x 2 dense Hamiltonian is a supported input of method='solve'"""
     mk.encodes(qe.Evolution.__init__, qe.Evolution._setup_solved_ham)
-    solve_dense_ode.__wrapped__(mk, 2, kind)
+    _solve_dense(mk, 2, kind, "ode")
+    _solve_dense(mk, 2, kind, "init")
 
 
 def _add_unitary_hyps(V, label="V"):
@@ -565,7 +600,7 @@ def _add_unitary_hyps(V, label="V"):
 
 @obligation(PROP, params=[{"n": 2, "kind": "ket"}, {"n": 2, "kind": "dop"},
                           {"n": 3, "kind": "ket", "_tiers": ("thorough",)}],
-            rounds=2, rounds2=3, timeout_s=800)
+            rounds=2, rounds2=4, timeout_s=800)
 @symenv
 def solve_conservation(mk, n, kind):
     """norm / trace, purity and energy are conserved by the 'solve' update (eigenvectors unitary)"""
